@@ -53,6 +53,12 @@ func genReceipt(g *genCtx) {
 				for len(v) < L {
 					v = append(v, pieces[r.Intn(len(pieces))]...)
 				}
+			} else if r.Intn(6) == 0 {
+				// white space that is not a space: a value ends at the next 0x20 or the end of the text, nowhere else
+				pieces := []string{"\t", "\n", "\r", "\v", "\f", "\u0085", "\u00a0", "\u3000", "\u2028", "a", "Z", "9", "line"}
+				for len(v) < L {
+					v = append(v, pieces[r.Intn(len(pieces))]...)
+				}
 			} else {
 				v = randBytesFrom(r, L, alpha)
 			}
